@@ -70,6 +70,10 @@ type c09env struct {
 	attOf  map[string]*spb.Attestation
 	alone  map[string]bool // accepted in isolation
 	sevOpt func() *gtb.SevValidateOptions
+	// attestations that carry their own endorsement in the certificate table: "endorsed" a genuine
+	// one, "unendorsed" the same with a corrupted signature
+	attSelf  map[string]*spb.Attestation
+	sevOptNo func() *gtb.SevValidateOptions // no Endorsement in the options
 }
 
 func newC09env() (*c09env, error) {
@@ -91,6 +95,22 @@ func newC09env() (*c09env, error) {
 	e.sevOpt = func() *gtb.SevValidateOptions {
 		return &gtb.SevValidateOptions{Endorsement: e.endo, RootsOfTrust: pool(m.RootCert), Now: now}
 	}
+	badSig := proto.Clone(e.endo).(*epb.VMLaunchEndorsement)
+	badSig.Signature = append([]byte{}, badSig.Signature...)
+	badSig.Signature[10] ^= 0x40
+	bb, _ := proto.Marshal(badSig)
+	e.attSelf = map[string]*spb.Attestation{
+		"endorsed":   {Report: Report(good), CertificateChain: &spb.CertificateChain{VcekCert: m.Vcek.Raw, Extras: map[string][]byte{sevGUID: e.eb}}},
+		"unendorsed": {Report: Report(good), CertificateChain: &spb.CertificateChain{VcekCert: m.Vcek.Raw, Extras: map[string][]byte{sevGUID: bb}}},
+	}
+	e.sevOptNo = func() *gtb.SevValidateOptions {
+		return &gtb.SevValidateOptions{RootsOfTrust: pool(m.RootCert), Now: now}
+	}
+	for k, a := range e.attSelf {
+		if ok := gtb.SevValidate(fx.Ctx(nil, false, false), a, e.sevOptNo()) == nil; ok != (k == "endorsed") {
+			return nil, fmt.Errorf("fixture: self-carrying attestation %s alone gives %v", k, ok)
+		}
+	}
 	e.alone = map[string]bool{}
 	for k, a := range e.attOf {
 		e.alone[k] = verify.SNPValidateFunc(e.roots())(a, e.eb) == nil
@@ -100,6 +120,8 @@ func newC09env() (*c09env, error) {
 	}
 	return e, nil
 }
+
+const sevGUID = "9f4116cd-c503-4f5a-8f6f-fb68882f4ce2" // sev.GCEFwCertGUID
 
 type seg struct {
 	P   int    `json:"p"`
@@ -204,9 +226,9 @@ func RunC09(run *vk.Run) {
 				run.Infra(err)
 				return
 			}
-			modes := []string{"one-validator", "validators-sharing-options", "SevValidate"}
+			modes := []string{"one-validator", "validators-sharing-options", "SevValidate", "SevValidate-extracting"}
 			if n == 4 {
-				modes = modes[:1+i%3]
+				modes = modes[:1+i%4]
 				modes = modes[len(modes)-1:]
 			}
 			for _, mode := range modes {
@@ -214,14 +236,18 @@ func RunC09(run *vk.Run) {
 				shared := env.roots()
 				one := verify.SNPValidateFunc(shared)
 				sevShared := env.sevOpt()
+				sevSharedNo := env.sevOptNo()
 				for p := range c.Att {
 					a := env.attOf[c.Att[p]]
+					aself := env.attSelf[c.Att[p]]
 					switch mode {
 					case "one-validator":
 						calls = append(calls, func() error { return one(a, env.eb) })
 					case "validators-sharing-options":
 						f := verify.SNPValidateFunc(shared)
 						calls = append(calls, func() error { return f(a, env.eb) })
+					case "SevValidate-extracting":
+						calls = append(calls, func() error { return gtb.SevValidate(ctx, aself, sevSharedNo) })
 					default:
 						calls = append(calls, func() error { return gtb.SevValidate(ctx, a, sevShared) })
 					}
